@@ -77,6 +77,11 @@ pub trait ShapesMut {
     fn slz(&mut self, v: &[()]) -> usize;
     fn slm(&mut self, v: &mut [u8]);
     fn st(&mut self, s: &str) -> usize;
+    /// owned strings: a Rust String (all of its bytes, interior NULs included) and the library's C strings (the text up to the first NUL), by value
+    /// and borrowed; the callee reports what it saw
+    fn owned(&mut self, s: String) -> usize;
+    fn cs(&mut self, s: cglue::repr_cstring::ReprCString) -> cglue::repr_cstring::ReprCString;
+    fn cstr(&mut self, s: cglue::repr_cstring::ReprCStr) -> usize;
     fn it(&mut self, it: CIterator<u32>) -> u64;
     fn rsm(&mut self) -> &mut [u8];
     /// mutable slices of 12-byte elements, as argument and as result
@@ -145,6 +150,9 @@ impl ShapesMut for Obj {
     fn sl64(&mut self, v: &[u64]) -> u64 { log_call(vec![self.id, 2, v.as_ptr() as i64, v.len() as i64]); v.iter().fold(0u64, |a, x| a.wrapping_add(*x)) }
     fn slz(&mut self, v: &[()]) -> usize { log_call(vec![self.id, 3, v.len() as i64]); v.len() }
     fn slm(&mut self, v: &mut [u8]) { log_call(vec![self.id, 4, v.as_ptr() as i64, v.len() as i64, digest(v)]); for x in v.iter_mut() { *x = x.wrapping_add(1); } }
+    fn owned(&mut self, s: String) -> usize { log_call(vec![self.id, 40, s.len() as i64, digest(s.as_bytes())]); self.s = s; self.s.len() }
+    fn cs(&mut self, s: cglue::repr_cstring::ReprCString) -> cglue::repr_cstring::ReprCString { let t: &str = s.as_ref(); log_call(vec![self.id, 41, t.len() as i64, digest(t.as_bytes())]); let mut r = String::from(t); r.push('é'); r.push_str(t); cglue::repr_cstring::ReprCString::from(r.as_str()) }
+    fn cstr(&mut self, s: cglue::repr_cstring::ReprCStr) -> usize { let t: &str = s.as_ref(); log_call(vec![self.id, 42, t.len() as i64, digest(t.as_bytes())]); t.len() }
     fn st(&mut self, s: &str) -> usize { log_call(vec![self.id, 5, s.as_ptr() as i64, s.len() as i64, digest(s.as_bytes())]); self.s = s.to_string(); s.chars().count() }
     fn it(&mut self, it: CIterator<u32>) -> u64 { let v: Vec<u32> = it.collect(); log_call(vec![self.id, 11, v.len() as i64]); v.iter().map(|x| *x as u64).sum() }
     fn rsm(&mut self) -> &mut [u8] { log_call(vec![self.id, 15]); &mut self.buf }
@@ -229,6 +237,25 @@ fn call_mut<T: ShapesMut>(t: &mut T, op: &[i64], scratch: &mut Scratch) -> Vec<i
         }
         15 => { let r = t.rsm(); if !r.is_empty() { r[0] = r[0].wrapping_add(5); } let d = digest(r); let again = digest(t.rs2()); vec![15, d, again] }
         17 => vec![17, t.res_e(a(1) as i32).is_ok() as i64],
+        40 => { let s = scratch.strings[(a(1) as usize) % scratch.strings.len()].clone(); let want = s.len(); let r = t.owned(s); if r != want { expect_fail(format!("String argument of {} bytes: the callee received {} bytes", want, r)); } vec![40, r as i64] }
+        41 | 42 => {
+            // absolute expectation: a C string carries the text up to its first NUL — all of it, whatever bytes it contains
+            let s = scratch.strings[(a(1) as usize) % scratch.strings.len()].clone();
+            let prefix: &str = s.split('\0').next().unwrap_or("");
+            if op[0] == 41 {
+                let r = t.cs(cglue::repr_cstring::ReprCString::from(s.as_str()));
+                let got: &str = r.as_ref();
+                let want = format!("{}é{}", prefix, prefix);
+                if got != want { expect_fail(format!("ReprCString argument/result for the text {:?}: got back {:?}, expected {:?}", prefix, got, want)); }
+                vec![41, got.len() as i64, digest(got.as_bytes())]
+            } else {
+                let owned = cglue::repr_cstring::ReprCString::from(s.as_str());
+                let b: &cglue::repr_cstring::ReprCStr = std::borrow::Borrow::borrow(&owned);
+                let r = t.cstr(*b);
+                if r != prefix.len() { expect_fail(format!("ReprCStr argument for the text {:?}: the callee saw {} bytes", prefix, r)); }
+                vec![42, r as i64]
+            }
+        }
         29 => {     // '29 w n': a &mut [Rgb3] argument of n (<= 8) elements starting at word w (0..=2) of the caller's buffer; the callee's writes must be visible
             let (w, n) = ((a(1) as usize) % 3, (a(2) as usize).min(8));
             let base = scratch.rgbw.as_ptr() as i64;
